@@ -671,6 +671,11 @@ class WrappingCollector(Collector):
     def all_ids(self):
         return self.child.all_ids()
 
+    def computes_count(self):
+        # (a wrapper counts what the collector it wraps counts, and knows as
+        # much as that one about whether the count is the number of matches)
+        return self.child.computes_count()
+
     def count(self):
         return self.child.count()
 
